@@ -443,6 +443,51 @@ class Builder:
             return self.add("Triangle.locate", v, [arr([[0.25, 0.5], [0.25, 0.5]])])
         return self.add("Triangle." + m, v, [])
 
+    def op_object_chain(self):
+        """state that lives in an OBJECT: read lazily computed attributes of a pooled triangle / curve, derive a new object
+        from it (elevate, subdivide, specialize, reduce_), then query the derived object.  The pristine run rebuilds the
+        derived object from its nodes, so anything inherited from the parent's caches shows as history dependence."""
+        rnd = self.rnd
+        if rnd.random() < 0.6:
+            if rnd.random() < 0.6 or not self.tris:
+                fam = rnd.choice(["cubic", "cubic-wavy", "thin-linear", "quadratic"])
+                p = [(rnd.randint(-4, 4), rnd.randint(-4, 4)) for _ in range(3)]
+                if fam == "cubic":
+                    self.new_tri(lin_tri(3, *p), 3)
+                elif fam == "cubic-wavy":
+                    self.new_tri(wavy_tri(3, *p, rnd.choice((0.125, 0.25))), 3)
+                elif fam == "thin-linear":
+                    # nearly collinear corners: the degree-1 verdict and the verdict of the elevated nodes round differently
+                    x = rnd.choice([0.1, 0.3, 0.7]); k = rnd.choice([1, 2, 3])
+                    self.new_tri([[x, x + 0.3, x - 0.4], [1.6, 1.6 - 1.2 * (1 - 2.0 ** -50 * k), 1.6 + 1.6]], 1)
+                else:
+                    self.new_tri(wavy_tri(2, *p, rnd.choice((0, 0.25))), 2)
+                v, d, nodes = self.tris[-1]
+            else:
+                v, d, nodes = rnd.choice(self.tris)
+            for m in rnd.sample(["is_valid", "area", "edges"], rnd.randint(0, 3)):
+                self.add("Triangle." + m, v, [])
+            der = rnd.choice(["elevate", "elevate", "subdivide"])
+            i = self.add("Triangle." + der, v, [], keep=True)
+            ref = {"ref": "r%d" % i} if der == "elevate" else {"ref": "r%d" % i, "pick": rnd.randint(0, 3)}
+            last = None
+            for m in rnd.sample(["is_valid", "area", "edges", "nodes"], rnd.randint(1, 3)):
+                last = self.add("Triangle." + m, ref, [])
+            return last
+        v, d, nodes = rnd.choice(self.curves2) if self.curves2 else self.curve_value()
+        for m in rnd.sample(["length", "nodes"], rnd.randint(0, 2)):
+            self.add("Curve." + m, v, [])
+        der = rnd.choice(["elevate", "subdivide", "specialize", "reduce_"])
+        if der == "specialize":
+            i = self.add("Curve.specialize", v, [0.25, 0.75], keep=True)
+        else:
+            i = self.add("Curve." + der, v, [], keep=True)
+        ref = {"ref": "r%d" % i, "pick": rnd.randint(0, 1)} if der == "subdivide" else {"ref": "r%d" % i}
+        last = None
+        for m in rnd.sample(["length", "nodes", "degree"], rnd.randint(1, 2)):
+            last = self.add("Curve." + m, ref, [])
+        return last
+
     def op_polygon(self):
         rnd = self.rnd
         if not self.polys:
@@ -581,7 +626,7 @@ class Builder:
         h = self.heavy
         table = [(self.op_curve_intersect, 22 * h), (self.op_all_intersections, 4 * h), (self.op_tri_intersect, 12 * h),
                  (self.op_tri_raw, 3 * h), (self.op_tri_lattice, 30 * h), (self.op_newton_stress, 10 * h), (self.op_curve_method, 18), (self.op_tri_method, 14), (self.op_polygon, 4),
-                 (self.op_helper, 14), (self.op_repeat, 9 * h)]
+                 (self.op_helper, 14), (self.op_repeat, 9 * h), (self.op_object_chain, 10)]
         if self.speedup:
             table.append((self.op_state, 5))
         tot = sum(w for _, w in table)
